@@ -468,7 +468,7 @@ fn dup_frame() -> impl Strategy<Value = AFrame> {
 /// 16-40 lines over a tiny key/value pool (adjacent identical lines are common), for removal-heavy
 /// operation sequences
 fn big_dup_frame() -> impl Strategy<Value = AFrame> {
-    prop::collection::vec((prop_oneof![Just("a"), Just("b"), Just("Genre"), Just("A")], prop_oneof![Just("x"), Just("y"), Just("")]), 16..=40usize).prop_map(|fields| AFrame {
+    prop_oneof![10 => 16..=40usize, 1 => 60..=300usize].prop_flat_map(|n| prop::collection::vec((prop_oneof![Just("a"), Just("b"), Just("Genre"), Just("A")], prop_oneof![Just("x"), Just("y"), Just("")]), n..=n)).prop_map(|fields| AFrame {
         items: fields.into_iter().map(|(k, v)| Item::Field(k.to_string(), v.to_string())).collect(),
     })
 }
